@@ -97,6 +97,28 @@ func vC11(nOps int, template bool) {
 	b2.send(&wamp.Yield{Request: invB.Request, Arguments: wamp.List{"real"}})
 	res, n := vFindMsg[*wamp.Result](b1.drain())
 	vAssert("other-realm-call-completes-with-its-own-result", n == 1 && res != nil && res.Request == 4 && len(res.Arguments) == 1 && res.Arguments[0] == any("real"))
+	// ... and B's own life cycle events are intact: b2 kills b1 (no reason
+	// given): b1's testament and its on_leave announcement appear in B
+	b2.send(&wamp.Subscribe{Request: 60, Topic: "x.topic"})
+	b2.send(&wamp.Subscribe{Request: 61, Topic: wamp.MetaEventSessionOnLeave})
+	b2.drain()
+	b1.drain()
+	kr, _, rest := b2.metaCall(wamp.MetaProcSessionKill, wamp.List{b1.id}, nil)
+	vAssert("kill-in-other-realm-works", kr != nil)
+	rest = append(rest, b2.drain()...)
+	nWill, nLeave := 0, 0
+	for _, m := range rest {
+		if e, ok := m.(*wamp.Event); ok && len(e.Arguments) >= 1 {
+			if e.Arguments[0] == any("will") {
+				nWill++
+			}
+			if id, isID := wamp.AsID(e.Arguments[0]); isID && id == b1.id {
+				nLeave++
+			}
+		}
+	}
+	vAssert("testament-of-killed-session-published-in-its-realm", nWill == 1)
+	vAssert("on-leave-of-killed-session-announced-in-its-realm", nLeave == 1)
 	vCover("realms-checked")
 }
 
